@@ -65,6 +65,7 @@ func c07Ops(nkeys int, full bool) []c07op {
 	for k := 0; k < nkeys; k++ {
 		ops = append(ops, c07op{name: fmt.Sprintf("Rec(k%d,intra)", k), kind: 'r', key: k, flowType: 1, from: aggfix.Both})
 		ops = append(ops, c07op{name: fmt.Sprintf("Rec(k%d,toExternal)", k), kind: 'r', key: k, flowType: 3, from: aggfix.Src})
+		ops = append(ops, c07op{name: fmt.Sprintf("Rec(k%d,fromExternal)", k), kind: 'r', key: k, flowType: 4, from: aggfix.Dst})
 		for _, a := range acts {
 			for _, from := range []int{aggfix.Src, aggfix.Dst} {
 				fn := "src"
